@@ -34,6 +34,10 @@ func kindName(g gtype) string {
 		return "err"
 	case kBools:
 		return "bools"
+	case kUint:
+		return fmt.Sprintf("u%d", g.w)
+	case kInt32:
+		return "i32"
 	}
 	return "?"
 }
@@ -87,6 +91,38 @@ func emitSelftest(repo string, sp *spec, dir string) (err error) {
 		ok := true
 		// the zero-copy casts of slog-agent/util are ordinary conversions here (the translation treats them as the
 		// identity on list N; aliasing is not represented on either side)
+		// constants listed in the spec (packages outside the standard library) become literals
+		lit := func(e ast.Expr) ast.Expr {
+			if sel, isSel := e.(*ast.SelectorExpr); isSel {
+				if id, isId := sel.X.(*ast.Ident); isId {
+					if pn, isPkg := p.info.Uses[id].(*types.PkgName); isPkg {
+						if v, has := sp.Constants[pn.Imported().Path()+"."+sel.Sel.Name]; has {
+							return &ast.BasicLit{ValuePos: e.Pos(), Kind: token.INT, Value: fmt.Sprint(v)}
+						}
+					}
+				}
+			}
+			return e
+		}
+		ast.Inspect(n, func(n ast.Node) bool {
+			switch x := n.(type) {
+			case *ast.CallExpr:
+				for i := range x.Args {
+					x.Args[i] = lit(x.Args[i])
+				}
+			case *ast.BinaryExpr:
+				x.X, x.Y = lit(x.X), lit(x.Y)
+			case *ast.AssignStmt:
+				for i := range x.Rhs {
+					x.Rhs[i] = lit(x.Rhs[i])
+				}
+			case *ast.ReturnStmt:
+				for i := range x.Results {
+					x.Results[i] = lit(x.Results[i])
+				}
+			}
+			return true
+		})
 		ast.Inspect(n, func(n ast.Node) bool {
 			// calls listed in ignore_calls (logging) are dropped, as in the translation
 			if blk, isBlk := n.(*ast.BlockStmt); isBlk {
@@ -180,12 +216,22 @@ func emitSelftest(repo string, sp *spec, dir string) (err error) {
 		}
 		printNode(p, fd)
 	}
+	fis := map[string]*funcInfo{}
 	for _, sf := range sp.Functions {
 		p := load(sf.File)
 		fd := findDecl(p, sf.File, sf.Func)
 		fi := &funcInfo{sf: sf, pkg: p, decl: fd, name: sf.Func}
 		fi.obj = p.info.Defs[fd.Name]
 		T.signature(fi)
+		T.funcs = append(T.funcs, fi)
+		T.byObj[fi.obj] = fi
+		fis[sf.File+":"+sf.Func] = fi
+	}
+	T.computeOutParams()
+	for _, sf := range sp.Functions {
+		p := load(sf.File)
+		fd := findDecl(p, sf.File, sf.Func)
+		fi := fis[sf.File+":"+sf.Func]
 		if !usesOnlyStd(p, fd) {
 			skipped = append(skipped, sf.Func)
 			// still part of the program if others call it? a non-std import cannot be compiled here: leave it out
@@ -213,7 +259,7 @@ func emitSelftest(repo string, sp *spec, dir string) (err error) {
 		sort.Slice(cl, func(i, j int) bool { return cl[i] < cl[j] })
 
 		// wrapper: run under recover, print the result as a Coq term
-		var params, args, kinds []string
+		var params, args, kinds, pre []string
 		idx := 0
 		for _, f := range fd.Type.Params.List {
 			n := len(f.Names)
@@ -229,6 +275,12 @@ func emitSelftest(repo string, sp *spec, dir string) (err error) {
 						conv = fmt.Sprintf("string(a[%d].b)", idx)
 					} else {
 						conv = fmt.Sprintf("append([]byte(nil), a[%d].b...)", idx)
+						for _, oi := range fi.outParams {
+							if oi == idx {
+								pre = append(pre, fmt.Sprintf("\tb%d := append([]byte(nil), a[%d].b...)\n", idx, idx))
+								conv = fmt.Sprintf("b%d", idx)
+							}
+						}
 					}
 				case kInt:
 					conv = fmt.Sprintf("int(a[%d].i)", idx)
@@ -236,6 +288,10 @@ func emitSelftest(repo string, sp *spec, dir string) (err error) {
 					conv = fmt.Sprintf("byte(a[%d].i)", idx)
 				case kBool:
 					conv = fmt.Sprintf("a[%d].i != 0", idx)
+				case kUint:
+					conv = fmt.Sprintf("uint%d(a[%d].i)", g.w, idx)
+				case kInt32:
+					conv = fmt.Sprintf("int32(a[%d].i)", idx)
 				default:
 					panic(unsupported{sf.Func + ": self-test of a parameter of type " + g.coq()})
 				}
@@ -245,9 +301,9 @@ func emitSelftest(repo string, sp *spec, dir string) (err error) {
 				idx++
 			}
 		}
-		res := []gtype{fi.result}
-		if fi.result.k == kTuple {
-			res = fi.result.elems
+		res := []gtype{fi.origRes}
+		if fi.origRes.k == kTuple {
+			res = fi.origRes.elems
 		}
 		var rv, show []string
 		for i, g := range res {
@@ -267,11 +323,15 @@ func emitSelftest(repo string, sp *spec, dir string) (err error) {
 				panic(unsupported{sf.Func + ": self-test of a result of type " + g.coq()})
 			}
 		}
+		for _, oi := range fi.outParams {
+			show = append(show, fmt.Sprintf("coqBytes(b%d)", oi))
+		}
 		showExpr := show[0]
 		if len(show) > 1 {
 			showExpr = `"(" + ` + strings.Join(show, ` + ", " + `) + ` + ")"`
 		}
 		fmt.Fprintf(&drv, "func run_%s(a []arg) (res string) {\n\tdefer func() {\n\t\tif r := recover(); r != nil {\n\t\t\tres = panicTerm(r)\n\t\t}\n\t}()\n", sf.Func)
+		drv.WriteString(strings.Join(pre, ""))
 		fmt.Fprintf(&drv, "\t%s := %s(%s)\n\treturn \"GOk \" + paren(%s)\n}\n\n", strings.Join(rv, ", "), sf.Func, strings.Join(args, ", "), showExpr)
 		var cs []string
 		for _, v := range cl {
@@ -411,7 +471,7 @@ func emitCases(w *bufio.Writer, module, fn string, kinds, ptypes []string, rtype
 			alpha = append(alpha, byte(v))
 		}
 	}
-	ints := []int64{-2, -1, 0, 1, 2, 3, 7, 255, 256}
+	ints := []int64{-2, -1, 0, 1, 2, 3, 7, 15, 16, 31, 32, 255, 256, 65535, 65536, 1<<31 - 1, 1 << 31, 1<<32 - 1, 1 << 32, 0x0102030405060708}
 	for _, c := range consts {
 		addb(c - 1)
 		addb(c)
@@ -474,6 +534,8 @@ func emitCases(w *bufio.Writer, module, fn string, kinds, ptypes []string, rtype
 				c[i].i = int64(alpha[r.n(len(alpha))])
 			case "bool":
 				c[i].i = int64(r.n(2))
+			case "u16", "u32", "u64", "i32":
+				c[i].i = ints[r.n(len(ints))]
 			}
 		}
 		return c
@@ -507,6 +569,14 @@ func emitCases(w *bufio.Writer, module, fn string, kinds, ptypes []string, rtype
 			return coqInt(a.i)
 		case "byte":
 			return coqByte(byte(a.i))
+		case "u16":
+			return fmt.Sprintf("%d%%N", uint16(a.i))
+		case "u32":
+			return fmt.Sprintf("%d%%N", uint32(a.i))
+		case "u64":
+			return fmt.Sprintf("%d%%N", uint64(a.i))
+		case "i32":
+			return coqInt(int64(int32(a.i)))
 		default:
 			return coqBool(a.i != 0)
 		}
